@@ -4,10 +4,10 @@
 // "verif" build tag every function is empty.
 package verifhook
 
-func Yield(site string)         {}
-func Block(site string)         {}
-func Unblock(site string)       {}
-func Spawn()                    {}
-func Begin(site string)         {}
-func End()                      {}
+func Yield(site string)        {}
+func Block(site string)        {}
+func Unblock(site string)      {}
+func Spawn()                   {}
+func Begin(site string)        {}
+func End()                     {}
 func Crash(site, label string) {}
